@@ -162,7 +162,12 @@ def run(ctx):
     impl, lines = [], []
     for q, d, sel in qs:
         ctx.case("q:" + q.encode() + "|" + "/".join(d) + "|" + str(sel))
+        before = wire.ser(q, pos=False)
         bad = oracle_query(P, q, d, sel)
+        if bad is None and wire.ser(q, pos=False) != before:
+            # resolving is a pure function of (query, directory): the query object it is called on stays what it was (a second resolution
+            # of the same object against another directory must not start from the result of the first)
+            bad = "query %r: to_absolute(%r) changed the query object it was called on into %r" % (qs_text(before), "/".join(d), q.encode())
         if bad:
             ctx.violation("qabs:%s|%s|%s" % (q.encode(), "/".join(d), sel), bad, dict(kind="qabs", query=wire.ser(q, pos=False), text=q.encode(), dir=d, sel=sel))
         impl.append(impl_qabs(P, q, d, sel)[0])
@@ -170,6 +175,10 @@ def run(ctx):
     ctx.count("queries", "generated 1-3 segments, headers, selected/unselected names", len(qs))
     ctx.sample(dict(query=qs[0][0].encode(), dir="/".join(qs[0][1]), segment_name=qs[0][2], result=impl[0][:80]))
     ctx.compare("Query.to_absolute", [q.encode() for q, d, s in qs], impl, ctx.driver.ask(lines))
+
+
+def qs_text(ser):
+    return ser[:120]
 
 
 def search(ctx, broken, disagreements):
